@@ -641,6 +641,19 @@ type runner struct {
 	x    *fw.Ctx
 	root string
 	n    int
+	// timedOut: a session process exceeded its wall-clock limit twice (a loaded machine, not
+	// the property): whatever the case reports afterwards is inconclusive, not a violation
+	timedOut bool
+}
+
+// fail reports a violation unless a session of this case ran into the wall-clock limit.
+func (rn *runner) fail(sig, format string, a ...any) {
+	if rn.timedOut {
+		rn.x.Cover("inconclusive:a session process exceeded its wall-clock limit (machine load), not judged: " + sig)
+		rn.x.Trivial()
+		return
+	}
+	rn.x.Fail(sig, format, a...)
 }
 
 func (rn *runner) session(dir string, limit int, ops []Op, crashAt int) (*sessOut, fw.SubResult) {
@@ -649,7 +662,12 @@ func (rn *runner) session(dir string, limit int, ops []Op, crashAt int) (*sessOu
 	outf := filepath.Join(rn.root, fmt.Sprintf("out-%d.json", rn.n))
 	b, _ := json.Marshal(sessIn{Dir: dir, Limit: limit, Ops: ops, CrashAt: crashAt})
 	_ = os.WriteFile(inf, b, 0o644)
-	res := fw.RunSub("c20sess", []string{inf, outf}, []string{"HOME=" + filepath.Join(rn.root, "home")}, rn.root, 60*time.Second)
+	res := fw.RunSub("c20sess", []string{inf, outf}, []string{"HOME=" + filepath.Join(rn.root, "home")}, rn.root, 120*time.Second)
+	if res.TimedOut {
+		// the process was killed by the harness at an arbitrary point: nothing the case
+		// observes afterwards speaks about the property
+		rn.timedOut = true
+	}
 	var so sessOut
 	data, err := os.ReadFile(outf)
 	_ = os.Remove(inf)
@@ -765,7 +783,7 @@ func execCase(x *fw.Ctx, c Case) {
 	check := func(so *sessOut, m *model, stage, sigPrefix string) bool {
 		ok := true
 		if so.LoadErr != "" {
-			x.Fail(sigPrefix+" fail=load-error", "%s: loading the directory failed: %s", stage, so.LoadErr)
+			rn.fail(sigPrefix+" fail=load-error", "%s: loading the directory failed: %s", stage, so.LoadErr)
 			return false
 		}
 		if good, why := isView(so.History, m); !good {
@@ -773,16 +791,16 @@ func execCase(x *fw.Ctx, c Case) {
 			if m.taint != "" {
 				kind = m.taint
 			}
-			x.Fail(sigPrefix+" what=history fail="+kind, "%s: history is not the most recent entered forms: %s", stage, why)
+			rn.fail(sigPrefix+" what=history fail="+kind, "%s: history is not the most recent entered forms: %s", stage, why)
 			ok = false
 		}
 		if len(so.Stash) != len(m.stash) {
-			x.Fail(sigPrefix+" what=stash fail=count"+m.taint, "%s: stash has %d forms, %d were stashed: %q vs %q", stage, len(so.Stash), len(m.stash), so.Stash, m.stash)
+			rn.fail(sigPrefix+" what=stash fail=count"+m.taint, "%s: stash has %d forms, %d were stashed: %q vs %q", stage, len(so.Stash), len(m.stash), so.Stash, m.stash)
 			ok = false
 		} else {
 			for i := range m.stash {
 				if !eqForm(so.Stash[i], m.stash[i]) {
-					x.Fail(sigPrefix+" what=stash fail=content", "%s: stash form %d is %q, stashed %q", stage, i, so.Stash[i], m.stash[i])
+					rn.fail(sigPrefix+" what=stash fail=content", "%s: stash form %d is %q, stashed %q", stage, i, so.Stash[i], m.stash[i])
 					ok = false
 					break
 				}
@@ -795,7 +813,7 @@ func execCase(x *fw.Ctx, c Case) {
 	checkVars := func(so *sessOut, m *model, stage, sigPrefix string) {
 		for k, want := range m.vars {
 			if so.Vars[k] != want {
-				x.Fail(sigPrefix+" what=settings fail=value var="+k, "%s: %s is %s after restart, last set to %s", stage, k, so.Vars[k], want)
+				rn.fail(sigPrefix+" what=settings fail=value var="+k, "%s: %s is %s after restart, last set to %s", stage, k, so.Vars[k], want)
 			}
 			x.Cover("settings-compared")
 		}
@@ -809,7 +827,7 @@ func execCase(x *fw.Ctx, c Case) {
 		so, res := rn.session(dir, m.limit, ops, 0)
 		nsess++
 		if so == nil || !so.Done {
-			x.Fail("restart fail=session-died", "session %d died: exit=%d %s", si, res.Exit, trunc(string(res.Stderr), 400))
+			rn.fail("restart fail=session-died", "session %d died: exit=%d %s", si, res.Exit, trunc(string(res.Stderr), 400))
 			return
 		}
 		stage := fmt.Sprintf("restart before session %d", si)
@@ -822,14 +840,14 @@ func execCase(x *fw.Ctx, c Case) {
 		checkVars(so, m, stage, "restart")
 		for oi, op := range ops {
 			if so.Ops[oi].Err != "" {
-				x.Fail("op-error kind="+op.Kind, "session %d op %d %v failed: %s", si, oi, op, so.Ops[oi].Err)
+				rn.fail("op-error kind="+op.Kind, "session %d op %d %v failed: %s", si, oi, op, so.Ops[oi].Err)
 				return
 			}
 			if op.Kind == "readd" && 0 < so.Ops[oi].Size {
 				// what recall hands out must be the entry that was entered
 				k := op.A % so.Ops[oi].Size
 				if k < len(m.live) && m.taint == "" && !eqForm(so.Ops[oi].Recalled, m.live[len(m.live)-1-k]) {
-					x.Fail("restart what=recall fail=differs", "session %d op %d: the %d-th most recent entry was handed out as %q, entered was %q", si, oi, k, so.Ops[oi].Recalled, m.live[len(m.live)-1-k])
+					rn.fail("restart what=recall fail=differs", "session %d op %d: the %d-th most recent entry was handed out as %q, entered was %q", si, oi, k, so.Ops[oi].Recalled, m.live[len(m.live)-1-k])
 					return
 				}
 				x.Cover("recalled-entries-compared")
@@ -861,12 +879,12 @@ func execCase(x *fw.Ctx, c Case) {
 			rso, _ := rn.session(cdir, after.limit, nil, 0)
 			sigp := fmt.Sprintf("crash op=%s point=%s", ops[opi].Kind, name)
 			if rso == nil || !rso.Done {
-				x.Fail(sigp+" fail=recovery-died", "after a death at %s the next session failed: %v", name, rso)
+				rn.fail(sigp+" fail=recovery-died", "after a death at %s the next session failed: %v", name, rso)
 				_ = os.RemoveAll(cdir)
 				return
 			}
 			if rso.LoadErr != "" {
-				x.Fail(sigp+" fail=load-error", "after a death at %s loading failed: %s", name, rso.LoadErr)
+				rn.fail(sigp+" fail=load-error", "after a death at %s loading failed: %s", name, rso.LoadErr)
 				_ = os.RemoveAll(cdir)
 				return
 			}
@@ -888,7 +906,7 @@ func execCase(x *fw.Ctx, c Case) {
 				x.Cover("crash-clear-prefix")
 			default:
 				kind := mismatchKind(rso.History, after.live)
-				x.Fail(sigp+" fail="+kind, "after a death at %s (op %d %s) the loaded history is neither the state before nor after the operation: %s\nloaded: %q", name, opi, ops[opi].Kind, whyA, rso.History)
+				rn.fail(sigp+" fail="+kind, "after a death at %s (op %d %s) the loaded history is neither the state before nor after the operation: %s\nloaded: %q", name, opi, ops[opi].Kind, whyA, rso.History)
 			}
 			if rec != nil {
 				// return from what was recovered: first exactly enough adds to
@@ -908,13 +926,13 @@ func execCase(x *fw.Ctx, c Case) {
 				for sti, fops := range stages {
 					fso, _ := rn.session(cdir, rec.limit, fops, 0)
 					if fso == nil || !fso.Done {
-						x.Fail(sigp+" fail=later-session-died", "a later session after a death at %s failed", name)
+						rn.fail(sigp+" fail=later-session-died", "a later session after a death at %s failed", name)
 						break
 					}
 					if sti == 1 {
 						if good, why := isView(fso.History, rec); !good {
 							kind := mismatchKind(fso.History, rec.live)
-							x.Fail(sigp+" later fail="+kind, "after a death at %s, recovery, %d further adds (one compaction) and a restart: %s\nloaded: %q", name, k1, why, fso.History)
+							rn.fail(sigp+" later fail="+kind, "after a death at %s, recovery, %d further adds (one compaction) and a restart: %s\nloaded: %q", name, k1, why, fso.History)
 							break
 						}
 					}
@@ -925,10 +943,10 @@ func execCase(x *fw.Ctx, c Case) {
 				if !x.Failed() {
 					fso, _ := rn.session(cdir, rec.limit, nil, 0)
 					if fso == nil || !fso.Done {
-						x.Fail(sigp+" fail=later-session-died", "the last restart after a death at %s failed", name)
+						rn.fail(sigp+" fail=later-session-died", "the last restart after a death at %s failed", name)
 					} else if good, why := isView(fso.History, rec); !good {
 						kind := mismatchKind(fso.History, rec.live)
-						x.Fail(sigp+" later fail="+kind, "after a death at %s, recovery, %d further adds and restarts: %s\nloaded: %q", name, len(c.Follow), why, fso.History)
+						rn.fail(sigp+" later fail="+kind, "after a death at %s, recovery, %d further adds and restarts: %s\nloaded: %q", name, len(c.Follow), why, fso.History)
 					}
 				}
 				x.Cover("crash-recoveries-checked")
@@ -948,7 +966,7 @@ func execCase(x *fw.Ctx, c Case) {
 			copyDir(pre, cdir)
 			cso, cres := rn.session(cdir, preModel.limit, ops, p)
 			if cso == nil || cres.Exit != 137 {
-				x.Fail("crash fail=harness", "armed crash %d (%s) did not kill the session: exit=%d", p, name, cres.Exit)
+				rn.fail("crash fail=harness", "armed crash %d (%s) did not kill the session: exit=%d", p, name, cres.Exit)
 				_ = os.RemoveAll(cdir)
 				continue
 			}
@@ -983,7 +1001,7 @@ func execCase(x *fw.Ctx, c Case) {
 	// final restart
 	so, _ := rn.session(dir, m.limit, nil, 0)
 	if so == nil || !so.Done {
-		x.Fail("restart fail=session-died", "final restart died")
+		rn.fail("restart fail=session-died", "final restart died")
 		return
 	}
 	if check(so, m, "final restart", "restart") {
